@@ -191,21 +191,23 @@ class Stream:
 
         self.state = args[1]
         # XXX why not using the state-machine stuff? ;)
-        if self.state in ['NEW', 'NEWRESOLVE', 'SUCCEEDED']:
-            if self.target_host is None:
-                last_colon = args[3].rfind(':')
-                self.target_host = args[3][:last_colon]
-                self.target_port = int(args[3][last_colon + 1:])
-                # target_host is often an IP address (newer tors? did
-                # this change?) so we attempt to look it up in our
-                # AddrMap and make it a name no matter what.
-                if self._addrmap:
-                    try:
-                        h = self._addrmap.find(self.target_host)
-                        self.target_host = h.name
-                    except KeyError:
-                        pass
+        if self.target_host is None and len(args) > 3:
+            # (whatever state we first see the stream in: one listed by
+            # "GETINFO stream-status" may already be e.g. SENTCONNECT)
+            last_colon = args[3].rfind(':')
+            self.target_host = args[3][:last_colon]
+            self.target_port = int(args[3][last_colon + 1:])
+            # target_host is often an IP address (newer tors? did
+            # this change?) so we attempt to look it up in our
+            # AddrMap and make it a name no matter what.
+            if self._addrmap:
+                try:
+                    h = self._addrmap.find(self.target_host)
+                    self.target_host = h.name
+                except KeyError:
+                    pass
 
+        if self.state in ['NEW', 'NEWRESOLVE', 'SUCCEEDED']:
             self.target_port = int(self.target_port)
             if self.state == 'NEW':
                 if self.circuit is not None:
